@@ -217,7 +217,7 @@ struct ExecOpts {
 // Build `t` in forest f along route `mode`: 0 = minterm collection (points in shuffled order),
 // 1 = point-by-point accumulation with UNION / MAXIMUM / MINIMUM, 2 = collection split in two halves combined by the same operation.
 static long g_aliasRoutes = 0;
-static inline void buildAlong(Rng& r, const World& w, forest* f, const FSpec& fs, const Table& t, int mode, dd_edge& out) {
+static inline void buildAlong(Rng& r, const World& w, forest* f, const FSpec& fs, const Table& t, int mode, dd_edge& out, int forceAlias = -1) {
     bool rel = fs.rel;
     const bool evp = fs.isEVP();
     Val bg = t[0];
@@ -227,7 +227,8 @@ static inline void buildAlong(Rng& r, const World& w, forest* f, const FSpec& fs
     // real-valued forests, one route in three: every zero is written as a double that is non-zero but underflows to 0 in
     // single precision (the forests store floats), so it must be indistinguishable from 0 -- same function, same edge
     static const double ALIAS[] = {1e-60, 1e-46, 4.9e-324};
-    const bool alias = fs.isReal() && r.chance(1, 3); const double az = ALIAS[r.below(3)];
+    const bool aliasDraw = fs.isReal() && r.chance(1, 3); const double az = ALIAS[r.below(3)];
+    const bool alias = forceAlias < 0 ? aliasDraw : (forceAlias > 0 && fs.isReal());
     auto rv = [&](const Val& v) { return (alias && v.k == Val::R && v.r == 0) ? rangeval(az) : toRV(v); };
     if (alias) g_aliasRoutes++;
     auto fill = [&](minterm& m, size_t i) { if (!rel) setMintermSet(f, w.shape, m, long(i)); else setMintermRel(f, w.shape, m, long(i) / w.N, long(i) % w.N); m.setValue(rv(t[i])); };
